@@ -69,8 +69,8 @@ def check(ctx: Ctx) -> None:
         fd, chain_d, sum_d = clock_summaries(ctx, f"{TOK}.detokenise", fallback=ctx.extra["clock_roles"]["get_info"])
     ctx.analysed(fd)
     ctx.analysed(fg)
-    ctx.floor("detokenise dispatch branches", len(chain_d), 10)
-    ctx.floor("get_info dispatch branches", len(chain_g), 5)
+    ctx.floor("detokenise dispatch branches", len(chain_d), 7)       # the seven prefixes that do something; PAD, START, STOP may be skipped by one membership test
+    ctx.floor("get_info dispatch branches", len(chain_g), 4)       # BAR, REST, PITCH, TIME_SIGNATURE (a final else is optional)
 
     # --- CLK1
     for pr in CLOCK_PREFIXES:
@@ -159,16 +159,30 @@ def check(ctx: Ctx) -> None:
     for s in fg.node.body:
         if isinstance(s, ast.Assign) and isinstance(s.targets[0], ast.Name) and "pos" in s.targets[0].id and isinstance(s.value, ast.Constant):
             pos = s
-    if pos is None:
+    counted = None
+    if pos is None and isinstance(loop.iter, ast.Call) and src(loop.iter.func) == "enumerate" and isinstance(loop.target, ast.Tuple) and len(loop.target.elts) == 2 \
+            and isinstance(loop.target.elts[0], ast.Name):
+        counted = loop.target.elts[0].id            # the position is the loop's own count: 0, 1, 2, ... by construction
+    if pos is None and counted is None:
         raise AnalysisError("get_info: position counter not found")
-    pv = pos.targets[0].id
-    ctx.check(pos.value.value == 0, "CLK4", "get_info: positions start at 0", function=fg.qualname, construct="position counter does not start at 0",
-              message="", file=fg.file, node=pos)
-    rng = events_matching(exits, lambda e: e[0] == "aug" and e[1] == pv, kinds=("end", "continue"))
-    incs = [s for s in ast.walk(loop) if isinstance(s, ast.AugAssign) and isinstance(s.target, ast.Name) and s.target.id == pv]
-    ctx.check(rng == (1, 1) and all(isinstance(s.op, ast.Add) and isinstance(s.value, ast.Constant) and s.value.value == 1 for s in incs), "CLK4",
-              f"get_info: position grows by exactly one per token {rng}", function=fg.qualname,
-              construct="position counter does not grow by exactly one per token", message=f"{rng}", file=fg.file, node=loop)
+    if counted is not None:
+        pv = counted
+        start = loop.iter.args[1] if len(loop.iter.args) > 1 else next((k.value for k in loop.iter.keywords if k.arg == "start"), None)
+        ctx.check(start is None or (isinstance(start, ast.Constant) and start.value == 0), "CLK4", "get_info: positions start at 0", function=fg.qualname,
+                  construct="position counter does not start at 0", message=short(loop.iter), file=fg.file, node=loop)
+        rebinds = [x for x in ast.walk(ast.Module(body=loop.body, type_ignores=[])) if isinstance(x, ast.Name) and x.id == pv and isinstance(x.ctx, ast.Store)]
+        ctx.check(not rebinds, "CLK4", "get_info: position grows by exactly one per token (enumerate)", function=fg.qualname,
+                  construct="position counter does not grow by exactly one per token", message="the loop's count is overwritten in the body", file=fg.file, node=loop)
+        incs = []
+    else:
+        pv = pos.targets[0].id
+        ctx.check(pos.value.value == 0, "CLK4", "get_info: positions start at 0", function=fg.qualname, construct="position counter does not start at 0",
+                  message="", file=fg.file, node=pos)
+        rng = events_matching(exits, lambda e: e[0] == "aug" and e[1] == pv, kinds=("end", "continue"))
+        incs = [s for s in ast.walk(loop) if isinstance(s, ast.AugAssign) and isinstance(s.target, ast.Name) and s.target.id == pv]
+        ctx.check(rng == (1, 1) and all(isinstance(s.op, ast.Add) and isinstance(s.value, ast.Constant) and s.value.value == 1 for s in incs), "CLK4",
+                  f"get_info: position grows by exactly one per token {rng}", function=fg.qualname,
+                  construct="position counter does not grow by exactly one per token", message=f"{rng}", file=fg.file, node=loop)
     # recorded before the token's own effect: appends of position/time/bar-time precede the dispatch chain
     first_if = next((s for s in loop.body if isinstance(s, ast.If) and T.enum_member_in_test(s.test) is not None), None)
     recorded = {}
@@ -184,7 +198,7 @@ def check(ctx: Ctx) -> None:
         ctx.check(ok, "CLK4", f"get_info: `{key}` records `{var}` before the token's own clock effect", function=fg.qualname,
                   construct=f"`{key}` does not record `{var}` before the token is applied",
                   message=f"recorded `{rec[1] if rec else None}`", file=fg.file, node=rec[0] if rec else loop)
-    inc_last = incs and incs[0] in loop.body and (first_if is None or incs[0].lineno > first_if.lineno)
+    inc_last = counted is not None or (incs and incs[0] in loop.body and (first_if is None or incs[0].lineno > first_if.lineno))
     ctx.check(bool(inc_last), "CLK4", "get_info: the position is incremented after it was recorded", function=fg.qualname,
               construct="position incremented before it is recorded", message="", file=fg.file, node=loop)
 
@@ -199,6 +213,18 @@ def check(ctx: Ctx) -> None:
         for s in ast.walk(ast.Module(body=pb, type_ignores=[])):
             if isinstance(s, ast.Call) and call_method(s)[1] == "append" and isinstance(call_method(s)[0], ast.Name) and s.args:
                 apps[call_method(s)[0].id] = s.args[0]
+        if not apps:
+            # the branch only notes the pitch (`p = int(part[1])`, p being None for every other token); the lists are written after the
+            # dispatch, under `p is not None`
+            locs = {a.targets[0].id for a in pb if isinstance(a, ast.Assign) and len(a.targets) == 1 and isinstance(a.targets[0], ast.Name)}
+            for s in loop.body:
+                if isinstance(s, ast.If) and isinstance(s.test, ast.Compare) and len(s.test.ops) == 1 and isinstance(s.test.ops[0], (ast.IsNot, ast.NotEq)) \
+                        and isinstance(s.test.left, ast.Name) and s.test.left.id in locs and isinstance(s.test.comparators[0], ast.Constant) and s.test.comparators[0].value is None \
+                        and any(isinstance(d, ast.Assign) and isinstance(d.targets[0], ast.Name) and d.targets[0].id == s.test.left.id and isinstance(d.value, ast.Constant)
+                                and d.value.value is None and d.lineno < s.lineno for d in loop.body):
+                    for c in ast.walk(ast.Module(body=s.body, type_ignores=[])):
+                        if isinstance(c, ast.Call) and call_method(c)[1] == "append" and isinstance(call_method(c)[0], ast.Name) and c.args:
+                            apps[call_method(c)[0].id] = c.args[0]
         pl, cl = keys.get("info_pitch"), keys.get("info_circle_of_fifths")
         pe, ce = apps.get(pl), apps.get(cl)
         okp = pe is not None and nz.norm(pe).canon() == "FIELD(1)"
@@ -209,6 +235,10 @@ def check(ctx: Ctx) -> None:
                   construct="circle-of-fifths annotation is not derived from the token's PITCH field", message=short(ce), file=fg.file, node=ce or fg.node)
         # the part consulted is the PITCH part
         gens = [g for s in pb for g in ast.walk(s) if isinstance(g, ast.GeneratorExp)]
+        # ... or looked up before the dispatch into a local the branch reads
+        used = {x.id for s in pb for x in ast.walk(s) if isinstance(x, ast.Name) and isinstance(x.ctx, ast.Load)}
+        gens += [g for s in loop.body if isinstance(s, ast.Assign) and len(s.targets) == 1 and isinstance(s.targets[0], ast.Name) and s.targets[0].id in used
+                 for g in ast.walk(s.value) if isinstance(g, ast.GeneratorExp)]
         ok = any(enum_member(c.comparators[0], "TokenisationPrefixes") == "PITCH" and isinstance(c.ops[0], ast.Eq) and len(c.ops) == 1
                  and isinstance(c.left, ast.Subscript) and isinstance(c.left.slice, ast.Constant) and c.left.slice.value == 0
                  and not any(isinstance(a, ast.UnaryOp) and isinstance(a.op, ast.Not) for a in ancestors(c) if a in list(ast.walk(g)))
